@@ -40,7 +40,9 @@ MANIFEST = dict(
           "** (int exponent), unary -, abs, round, in plain, reflected and in-place form and for Angle/int/float operands, "
           "returns reduce_deg of the exact result (hence in range and congruent), division/modulo by zero gives "
           "ZeroDivisionError; to_positive maps (-360, 360) into [0, 360) congruently; get_ra = deg/15; over the reals "
-          "(AngleR) radians input is reduce_deg(x*180/pi) and rad() = deg*pi/180. The model is tied to /repo by "
+          "(AngleR) radians input is reduce_deg(x*180/pi), rad() = deg*pi/180 and ** with a float/Angle exponent on a "
+          "positive base is Angle(real power). Two clauses are false of the code and have proved counterexamples "
+          "(ctor_ra_counterexample, rmod_counterexample) next to the partial theorems. The model is tied to /repo by "
           "running its binary64 instantiation against CPython bit for bit and its exact instantiation within the "
           "property's tolerance modulo 360; the clauses are evaluated on the implementation with an exact-rational "
           "oracle over boundary-heavy inputs (multiples of 360, +-ulp at 0 and +-360, denormals, -0.0, up to 1e15). "
@@ -50,8 +52,10 @@ MANIFEST = dict(
     note=("Trusted: Lean kernel, Mathlib, axioms propext/Classical.choice/Quot.sound; the hand-written model "
           "(lean/templates/Angle.lean, AngleR.lean) and its correspondence run; the mapping from a Python call to its "
           "argument shape (harness); int arguments below 2**53 enter the model as the equal float; idealisation "
-          "binary64 -> Rat/Real modelled, not verified. Known findings: ra= input is not reduced (|h| >= 24 leaves "
-          "(-360, 360)); number % Angle reduces the number modulo 360 first."),
+          "binary64 -> Rat/Real modelled, not verified. Known findings (findings.d/C03.json): ra= input is not reduced "
+          "(|h| >= 24 leaves (-360, 360)); number % Angle reduces the number modulo 360 first; dms2deg's binary64 sum "
+          "rounds up to +-360.0 for sexagesimal input within 1e-10 arcsec of a whole turn (a float-only effect: the "
+          "exact model is proved in range)."),
     technique="Lean 4 proof (floor/mod algebra over Rat, Real for pi) + model/implementation correspondence check",
     ref='6 C03')
 
@@ -806,7 +810,7 @@ def generate(ctx, shard=0, nshards=1):
         ctx.sample({'call': 'Angle(725.5)()', 'expected': 5.5})
         ctx.sample({'call': 'Angle(0, -5, 30.0)()', 'expected': -0.09166666666666667})
         ctx.sample({'call': '(Angle(350) + 20)()', 'expected': 10.0})
-    n = ctx.n(1000000, 8000000) // nshards
+    n = min(ctx.n(1000000, 8000000), 10000000) // nshards      # capped: the failing-input search multiplies the scale
     for s in gen_specs(ctx, n):
         run_spec(ctx, s)
 
